@@ -1,6 +1,9 @@
 import PolyVerif.Lemmas.DeBruijn
 import PolyVerif.Lemmas.Barcodes
 import PolyVerif.Props.C17Big
+import PolyVerif.Props.C17Cert
+import PolyVerif.Props.C17Cert10
+import PolyVerif.Props.C17Cert11
 import PolyVerif.Props.C11
 /-
 C17 — De Bruijn barcodes are unique, non-overlapping in n-mers and ban-free.
@@ -8,9 +11,14 @@ C17 — De Bruijn barcodes are unique, non-overlapping in n-mers and ban-free.
 (1) `windowsDistinct_sound`: the executable checker `Spec.check` is sound for EVERY order n and every
     string: if it answers `true` the string has length 4ⁿ+n−1 and every n-letter word over A,T,G,C
     occurs exactly once among its windows (at exactly one position).
-(2) `db_ok_n`: the model of NucleobaseDeBruijnSequence passes the checker — kernel evaluation for
-    n = 1..6 here and n = 7, 8 in Props/C17Big; compiled evaluation (`native_decide`, the only
-    place it is used) for n = 9..11 in Props/C17Native.  These are the property's orders 1..11.
+(2) the generated sequence, the property's orders 1..11:
+    n = 1..8  `db_ok_n`: the MODEL of NucleobaseDeBruijnSequence passes the checker — kernel evaluation
+              (n = 1..6 here, n = 7, 8 in Props/C17Big);
+    n = 9..11 `generated9_isDeBruijn`, `generated10_isDeBruijn`, `generated11_isDeBruijn` (Props/C17Cert,
+              C17Cert10, C17Cert11*): the string the RUNNING CODE returns, extracted on every run together
+              with a certificate (window value ↦ position), passes a certificate checker in the kernel;
+              `segments_isDeBruijn` (soundness of that checker, every order).
+    No `native_decide` anywhere: every theorem of C17 is checked by the kernel alone.
 
     NOT claimed: the statement for all n,
         ∀ n ≥ 1, ∃ s, deBruijn n = .ok s ∧ IsDeBruijn n s
@@ -261,6 +269,25 @@ instead of walking `db` from its head for every slot) returns the model's value 
 theorem barcodesOnFast_eq (db : Str) (len n : Nat) (bans : List Str) (filters : List (Str → Bool)) :
     barcodesOnFast db len n bans filters = barcodesOn db len n bans filters :=
   outerLoopFast_eq db len _ bans filters _ 0 db 0 rfl
+
+/-! ### orders 9, 10, 11: the sequence the running code returns (extracted table, kernel-checked certificate) -/
+
+/-- orders 9..11 of the property's first sentence, for the strings `NucleobaseDeBruijnSequence(9)`, `(10)`, `(11)`
+return (Props/C17Cert*: `decide +kernel` on certificates regenerated from the code on every run) -/
+theorem generated_isDeBruijn_9_11 : IsDeBruijn 9 generated9 ∧ IsDeBruijn 10 generated10 ∧ IsDeBruijn 11 generated11 :=
+  ⟨generated9_isDeBruijn.1, generated10_isDeBruijn.1, generated11_isDeBruijn.1⟩
+
+/-- the barcode laws that need distinct windows, on those two strings (the other laws hold for any string) -/
+theorem barcodes_no_shared_nmer_generated {len : Nat} {bans : List Str} {filters : List (Str → Bool)} {bs : List Str} :
+    (9 ≤ len → barcodesOn generated9 len 9 bans filters = .ok bs →
+      bs.Pairwise (fun b1 b2 => ∀ w : Str, w.length = 9 → ¬ (w <:+: b1 ∧ w <:+: b2))) ∧
+    (10 ≤ len → barcodesOn generated10 len 10 bans filters = .ok bs →
+      bs.Pairwise (fun b1 b2 => ∀ w : Str, w.length = 10 → ¬ (w <:+: b1 ∧ w <:+: b2))) ∧
+    (11 ≤ len → barcodesOn generated11 len 11 bans filters = .ok bs →
+      bs.Pairwise (fun b1 b2 => ∀ w : Str, w.length = 11 → ¬ (w <:+: b1 ∧ w <:+: b2))) :=
+  ⟨fun hl h => barcodes_no_shared_nmer_of_distinct generated9_isDeBruijn.2 hl h,
+   fun hl h => barcodes_no_shared_nmer_of_distinct generated10_isDeBruijn.2 hl h,
+   fun hl h => barcodes_no_shared_nmer_of_distinct generated11_isDeBruijn.2 hl h⟩
 
 /-- `CreateBarcodes` is the call with no bans and no filters -/
 theorem createBarcodes_eq (len n : Nat) : createBarcodes len n = createBarcodesWith len n [] [] := rfl
